@@ -44,12 +44,19 @@ def cfg_json(cfg):
     return {k: (v if k == "kind" else rat(v)) for k, v in cfg.items()}
 
 
-def make_cfg(cfg):
+def make_cfg(cfg, types=None):
+    """`types`: abstract key -> one of TYPES (the same value as an int, a NumPy scalar, a 0-d array ...)"""
     from pewlib.config import Config, SpotConfig
 
+    t = types or {}
+    pos = bool(t.get("_positional"))  # the parameters in the documented order instead of by keyword
     if cfg["kind"] == "raster":
-        return Config(spotsize=cfg["spotsize"], speed=cfg["speed"], scantime=cfg["scantime"])
-    return SpotConfig(spotsize=cfg["sx"], spotsize_y=cfg["sy"])
+        a = (typed(cfg["spotsize"], t.get("spotsize")), typed(cfg["speed"], t.get("speed")), typed(cfg["scantime"], t.get("scantime")))
+        return Config(*a) if pos else Config(spotsize=a[0], speed=a[1], scantime=a[2])
+    if t.get("sy") == "omitted" and cfg["sx"] == cfg["sy"]:
+        return SpotConfig(typed(cfg["sx"], t.get("sx"))) if pos else SpotConfig(spotsize=typed(cfg["sx"], t.get("sx")))
+    a = (typed(cfg["sx"], t.get("sx")), typed(cfg["sy"], t.get("sy")))
+    return SpotConfig(*a) if pos else SpotConfig(spotsize=a[0], spotsize_y=a[1])
 
 
 # ----------------------------------------------------------------------------- SRR inputs (shared with C09)
@@ -94,7 +101,7 @@ def gen_srr(rng, max_vox=24000, force_valid=True):
         if rng.random() < 0.15:
             l1 = l0
         spotsize, speed, scantime = int_mag_triple(rng, M)
-        w = rng.choice([0, 0, 1, 2, 3, 5])
+        w = rng.choice([0, 0, 1, 2, 3, 5, 40, 500])
         mode = rng.choice(["exact", "exact", "frac", "frac", "tie", "neartie"])
         if mode == "neartie":  # the float product (w + 1/2) * scantime and its neighbours: the exact quotient is w + 1/2 +- ~1e-16,
             seconds = (w + 0.5) * scantime  # so the float rounding of the division decides the warm-up in samples
@@ -133,6 +140,9 @@ def gen_srr(rng, max_vox=24000, force_valid=True):
             s0 = s1 = max(l0, l1) * M + rng.choice([0, 1, 2, 5])
         if (l0 * M * p + ov) * (l1 * M * p + ov) * n > max_vox:
             continue
+        if rng.random() < 0.08:  # extreme magnitudes: spot size and speed times 2^k (exact, so the magnification is the same float integer)
+            k = rng.choice([-1000, -600, -80, 80, 600, 900])
+            spotsize, speed = math.ldexp(spotsize, k), math.ldexp(speed, k)
         return {"spotsize": spotsize, "speed": speed, "scantime": scantime, "warmup": seconds, "pairs": pairs,
                 "mag": M, "n": n, "shapes": [[l0, s0], [l1, s1]], "short": short, "wmode": mode}
     raise core.InternalError("could not generate an SRR case")
@@ -141,8 +151,9 @@ def gen_srr(rng, max_vox=24000, force_valid=True):
 def srr_cfg_json(case):
     """the INPUTS of an SRRConfig: the constructor arguments (exact values of the floats) and, under "ops", the changes made
     to that object afterwards (see `cfg_op`); Lean's `SrrConfig.make` / setters compute the state from them"""
-    return {"spotsize": rat(case["spotsize"]), "speed": rat(case["speed"]), "scantime": rat(case["scantime"]),
-            "warmup": rat(case["warmup"]), "pairs": case["pairs"], "ops": list(case.get("ops", []))}
+    c = case.get("ctor", case)  # (a history keeps the constructor arguments apart from the current values)
+    return {"spotsize": rat(c["spotsize"]), "speed": rat(c["speed"]), "scantime": rat(c["scantime"]),
+            "warmup": rat(c["warmup"]), "pairs": c["pairs"], "ops": list(case.get("ops", []))}
 
 
 def cfg_op(op, **kw):
@@ -195,10 +206,71 @@ def stack_shapes(case):
 
 
 # ----------------------------------------------------------------------------- helpers
+MIN_NORMAL, MAX_FLOAT = Fraction(2) ** -1022, Fraction(sys.float_info.max)
+
+
+def in_range(q: Fraction) -> bool:
+    """zero, or inside the normal exponent range of float64 (where `Pew.fl` is the float64 rounding and a relative
+    tolerance makes sense)"""
+    return q == 0 or MIN_NORMAL <= abs(q) <= MAX_FLOAT
+
+
 def fclose(a: float, q: Fraction, rel=REL) -> bool:
     if a == q:
         return True
+    if not in_range(q):  # the exact value under/overflows: nothing a relative tolerance can say (recorded by the caller)
+        return True
+    if math.isinf(a) or math.isnan(a):
+        return False
     return abs(Fraction(a) - q) <= Fraction(rel) * max(abs(Fraction(a)), abs(q))
+
+
+def f32_exact(v) -> bool:
+    """a value float32 keeps exactly and whose products with another such value and an index <= 128 stay exact in float32:
+    numerator below 128, denominator a power of two up to 8"""
+    try:
+        f = Fraction(v)
+    except (TypeError, ValueError, OverflowError):
+        return False
+    return f > 0 and f.numerator < 128 and f.denominator in (1, 2, 4, 8)
+
+
+TYPES = ("float", "int", "i64", "f64", "arr0", "f32")
+
+
+def safe_types(cfg, types, rows, cols):
+    """float32 parameters only where float32 arithmetic is exact: every parameter of the configuration float32-exact and the
+    image at most 100 pixels per side (NumPy computes speed * scantime and pixel size * columns in float32 then); else float"""
+    if not types:
+        return types
+    ok = max(rows, cols) <= 100 and all(f32_exact(v) for k, v in cfg.items() if k != "kind")
+    return {k: (t if (t != "f32" or ok) else "float") for k, t in types.items()}  # ("_positional": True passes through)
+
+
+def typed(v, t):
+    """the value `v` (a float) as an object of another numeric type with the SAME value; `float` when that type cannot hold it"""
+    v = float(v)
+    if t == "int" and v.is_integer() and abs(v) < 2 ** 53:
+        return int(v)
+    if t == "i64" and v.is_integer() and abs(v) < 2 ** 53:
+        return np.int64(int(v))
+    if t == "f64":
+        return np.float64(v)
+    if t == "arr0":
+        return np.array(v)  # a 0-d array: what SRRConfig.from_array hands to the constructor
+    if t == "f32" and f32_exact(v):
+        return np.float32(v)
+    return v
+
+
+def type_used(v, t):
+    """the type `typed` really produced"""
+    w = typed(v, t)
+    return {int: "int", float: "float"}.get(type(w), t)
+
+
+DTYPES = {"f8": np.float64, "f4": np.float32, "i8": np.int64, "i4": np.int32, "u2": np.uint16}
+DTYPE_CAP = {"f8": 2 ** 53, "f4": 2 ** 24, "i8": 2 ** 62, "i4": 2 ** 31 - 1, "u2": 2 ** 16 - 1}
 
 
 def ext_close(vals, rats) -> bool:
@@ -214,11 +286,16 @@ def near_int(q: Fraction):
 
 
 def bound(mode, k, px, pw_exact):
-    """float bound of pixel boundary k: how a caller would compute it"""
+    """float bound of pixel boundary k: how a caller would compute it (inf when the product overflows: such a read is skipped)"""
+    if not math.isfinite(k * px):
+        return math.inf
     if mode == "mul":
         return k * px
     if mode == "exact":
-        return float(k * pw_exact)
+        try:
+            return float(k * pw_exact)
+        except OverflowError:
+            return math.inf
     if mode == "up":
         return float(np.nextafter(k * px, math.inf))
     if mode == "down":
@@ -246,9 +323,22 @@ def summarize(res, cols, off, full):
     return out
 
 
-def token_data(rows, cols, fields):
-    """structured float64 array; `fields` = [(name, k)]: pixel (r, c) of field `name` holds r*cols + c + 1 + k*rows*cols"""
-    data = np.empty((rows, cols), dtype=[(n, np.float64) for n, _ in fields])
+def token_data(rows, cols, fields, dtypes=None, layout="C"):
+    """structured array; `fields` = [(name, k)]: pixel (r, c) of field `name` holds r*cols + c + 1 + k*rows*cols.
+    `dtypes`: one key of DTYPES per field (float64 where the tokens would not fit); `layout`: "C", "F" (Fortran order) or
+    "view" (a strided view of a larger array)"""
+    top = rows * cols * (max([k for _, k in fields] + [0]) + 1)
+    dts = []
+    for i, _ in enumerate(fields):
+        d = (dtypes or [])[i % len(dtypes)] if dtypes else "f8"
+        dts.append(d if d in DTYPES and top <= DTYPE_CAP[d] else "f8")
+    dtype = [(n, DTYPES[d]) for (n, _), d in zip(fields, dts)]
+    if layout == "view" and rows * cols <= 200_000:
+        data = np.zeros((2 * rows + 1, 3 * cols + 2), dtype=dtype)[1::2, 2::3]
+    elif layout == "F" and rows * cols <= 1_000_000:
+        data = np.empty((cols, rows), dtype=dtype).T
+    else:
+        data = np.empty((rows, cols), dtype=dtype)
     base = np.arange(1, rows * cols + 1, dtype=np.float64).reshape(rows, cols)
     for n, k in fields:
         data[n] = base + k * rows * cols
@@ -271,37 +361,57 @@ def srr_vox(pairs, M, l0, l1, n):
 class C10(Prop):
     id = "C10"
     anchored = ["src/pewlib/config.py", "src/pewlib/laser.py", "src/pewlib/srr/config.py", "src/pewlib/srr/srr.py"]
-    cases = {"quick": 950, "thorough": 38000}
+    cases = {"quick": 950, "thorough": 32000}
     rule = ("raster/spot configs with parameters from pools of binary-inexact values (0.1*3, 33.3*1.3, 0.007, 1/3 ...), "
             "their products and random decimals; shapes 1..8 (every pixel-aligned rectangle read), medium and up to 4000 per side "
-            "(random aligned rectangles incl. own extent, empty, first/last row/column); bounds computed as k*px, as the correctly "
-            "rounded exact product, and one ulp above/below; SRR stacks (2..5 crossed layers, mag 1..4 from float-integer triples, "
-            "warm-up, offsets) for extent/pixel = reconstructed shape; histories on ONE Laser object (2..5 steps: observe extent / pixel "
-            "sizes / own-extent read / aligned reads, then edit one or several configuration attributes in place, replace the "
-            "configuration object, assign data of another shape, add/remove an element, observe again - each observation against the "
-            "model/spec for the configuration and shape held then) and on ONE SRRLaser object (offsets, equal offsets, warm-up, spot "
-            "size/speed/scan time edited in place, configuration replaced; the driver is told the constructor arguments and the sequence of "
-            "setter calls, Lean's setters compute the state). Every extent observation also encodes the real to_array() result (dtype names, "
-            "shape, values) for the driver and runs Config.from_array / SpotConfig.from_array on the real arrays of all three configuration "
-            "classes (outcome or exception class against the model's from_array). Every case is non-trivial; distinct by canonical case hash")
+            "(random aligned rectangles incl. own extent, empty, first/last row/column), long images (one side >= 4096 and >= 2^16 really "
+            "allocated and read near the far end; extents alone up to 2^28 per side on a broadcast view); bounds computed from the APPLIED "
+            "parameters as k*px, as the correctly rounded exact product, and one ulp above/below, or the extent pewlib reports; parameters, "
+            "bounds and data of other numeric types (int, np.int64, np.float64, 0-d arrays, float32 where float32 arithmetic is exact; data "
+            "fields f8/f4/i8/i4/u2, Fortran order, strided views; the extent as tuple/list/array; calibrate omitted/False/None; "
+            "Laser.from_list; positional constructor arguments); extreme magnitudes (1e-300, 1e300, subnormal, DBL_MAX); SRR stacks (2..5 "
+            "crossed layers, mag 1..7 from float-integer triples, warm-up 0..500 samples, offsets lists shorter and longer than the stack, "
+            "parameters scaled by 2^k, reconstruction read before or after the extent, by get() / get(element) / get(flat=True)) for "
+            "extent/pixel = reconstructed shape; histories on ONE Laser object (kind hist) and on several configuration objects and several "
+            "lasers that may SHARE one (kind heap: every attribute of the class in every order, through the laser or through the harness's own "
+            "reference, configuration replaced and the old object forgotten so that its id() is reused, copy.copy / deepcopy of a laser, data of "
+            "the same or another shape / dtype / layout, elements added and removed; every observation - extent, pixel sizes alone, own-extent "
+            "read, aligned read - judged against Lean's `viewSpec` of the operations the harness performed, never against values read back "
+            "from pewlib) and on SRRLaser objects (offsets, equal offsets, warm-up, spot size / speed / scan time one by one in any order, "
+            "configuration replaced, layers replaced in the list or as a list, a second SRRLaser given the SAME configuration object; the "
+            "driver is told the constructor arguments and the sequence of setter calls, Lean's setters compute the state). Every extent "
+            "observation also encodes the real to_array() result (dtype names, field dtypes, shape, values) for the driver, demands that the "
+            "configuration read back holds exactly the applied values, and runs Config.from_array / SpotConfig.from_array on the real arrays "
+            "of all three configuration classes. Every case is non-trivial; distinct by canonical case hash")
     trusted = [
-        "float64 multiplication/division are correctly rounded, hence for the generated magnitudes (indices <= 4000) the float "
-        "quotient bound/pixel-size is within 5e-7 of the exact quotient (assumption of get_aligned_rect); the model evaluates the exact quotient",
+        "CPython float multiplication/division are IEEE-754 binary64 round-to-nearest-even, which is what PewModel/Srr.lean `fl` computes "
+        "in the normal exponent range; given that, theorems get_float_aligned / get_float_own_extent PROVE that every bound within k*p/2^50 of "
+        "its boundary (k <= 2^28) converts to k (no assumption on the quotient error any more); values outside the normal range are recorded only",
         "Python round(x, 6) is round-half-even on the exact value of x and int() truncates (theorem get_aligned_rect shows no tie is reachable)",
-        "extent values are compared with the exact rational at 1e-12 relative; SRR extent/pixel ratios with the integer shape at 1e-9 relative",
+        "extent values are compared with the exact rational at 1e-12 relative (theorem extent_float_close: the float64 pipeline is within 2^-51); "
+        "bit-for-bit agreement with the float64 model is recorded, not demanded; SRR extent/pixel ratios with the integer shape at 1e-9 relative",
         "SRR: 'integer magnification' means spotsize/(speed*scantime) evaluates to an integer in float64 (DESIGN 6a); the driver computes "
         "that float64 value from the inputs (PewModel/Srr.lean `fl`) and the SRR configuration from the constructor / setter inputs",
         "structured arrays: NumPy >= 2 semantics of float(array) (TypeError unless 0-d), array[name] (ValueError for a missing field), "
         "indexing a 0-d array (IndexError); arrays are encoded for the driver field by field (names in dtype order, shape, exact values)",
-        "structural ties: the ~350-line typed translator harness/structural_c10.py (expression trees of the SRR configuration arithmetic, "
-        "SRRLaser.extent, Laser.get's index conversion -> Lean definitions, proved equal to the model functions on every run)",
+        "Python object semantics assumed by the heap-history model: attribute assignment changes the one object, `a.config = obj` stores a "
+        "reference (checked with `is` after every assignment and construction; a copy made by pewlib is told to the driver as a copy)",
+        "structural ties: the ~900-line typed translator harness/structural_c10.py (expression trees of the SRR configuration arithmetic, "
+        "SRRLaser.extent, Laser.shape/extent, Laser.get's index conversion and slice, to_array of the three classes, from_array of Config and "
+        "SpotConfig incl. the constructor's parameter -> attribute mapping -> Lean definitions, proved equal to the model functions on every run)",
     ]
     assumptions = [
         "SRR extent/shape clause: when the model's validity check accepts the configuration the demanded shape is Lean's "
         "reconRows/reconCols (the C09 specification) and both the extent/pixel ratio and the shape pewlib reconstructs must equal it; "
         "when the reconstruction raises nothing is compared (C09 covers success)",
-        "a change of the array LAYOUT of to_array (field names, order, the SpotConfig two-element array) that keeps the values through "
+        "a change of the array LAYOUT of to_array (field names, order, dtype, the SpotConfig two-element array) that keeps the values through "
         "the round trip is reported as an implementation-vs-model difference, not as a violation of the specification",
+        "from_array applied to the array of ANOTHER configuration class (exception class, or Config accepting an SRR array) is outside the "
+        "property: it is compared with the model (theorem config_array_cross_kind) and a difference is recorded only",
+        "values outside the normal float64 range (a product that under/overflows, subnormal pixel sizes) are recorded only: the "
+        "round trip of the parameters themselves is still demanded exactly",
+        "float32 parameters are used only where float32 arithmetic is exact (all parameters with numerator < 128 and denominator <= 8, "
+        "images up to 100 pixels per side); NumPy computes speed * scantime in float32 for float32 operands, which is no defect of pewlib",
     ]
 
     # ------------------------------------------------------------------ generation
@@ -404,12 +514,166 @@ class C10(Prop):
             steps[-1]["obs"] = [{"o": "extent"}, {"o": "own"}]
         return {"kind": "hist", "cfg": cfg, "rows": rows0, "cols": cols0, "nel": nel, "steps": steps}
 
+    def gen_heap(self, rng, tier):
+        """a history on configuration objects and lasers (see `eval_heap`).  The generator follows kinds and shapes only to
+        draw rectangles that fit and attributes that exist; it assumes that the constructor copies and an assignment shares."""
+        steps = []
+        kinds = []  # i-th configuration of the harness -> kind
+        L = []  # lasers: dict(rows, cols, kind, key) with key = the configuration object held ("m<i>" | "c<j>")
+
+        def shape(big_ok):
+            t = rng.random()
+            if t < 0.45:
+                return rng.randint(1, 8), rng.randint(1, 8)
+            if t < 0.9 or not big_ok:
+                return rng.randint(1, 120), rng.randint(1, 120)
+            return self.gen_shape(rng, "quick")
+
+        def value(attr, kind):
+            pool = {"spotsize": SPOTSIZES, "speed": SPEEDS, "scantime": SCANTIMES, "spotsize_y": SPOTSIZES}[attr]
+            if rng.random() < 0.25:
+                t = rng.choice(["int", "i64", "f64", "arr0"])
+                v = float(rng.randint(1, 200)) if t in ("int", "i64") else pick(rng, pool)
+                return v, t
+            return pick(rng, pool), None
+
+        def new_cfg():
+            cfg = gen_cfg(rng)
+            st = {"s": "cfg", "cfg": cfg}
+            if rng.random() < 0.2:
+                keys = [k for k in cfg if k != "kind"]
+                ts = {k: rng.choice(["int", "i64", "f64", "arr0"]) for k in keys if rng.random() < 0.6}
+                for k, t in ts.items():
+                    if t in ("int", "i64"):
+                        cfg[k] = float(rng.randint(1, 200))
+                if cfg["kind"] == "spot" and rng.random() < 0.3:
+                    cfg["sy"] = cfg["sx"]
+                    ts["sy"] = "omitted"
+                st["types"] = ts
+            if rng.random() < 0.15:
+                st["types"] = {**st.get("types", {}), "_positional": True}
+            steps.append(st)
+            kinds.append(cfg["kind"])
+            return len(kinds) - 1
+
+        def new_laser(i, big_ok):
+            rows, cols = shape(big_ok)
+            st = {"s": "laser", "cfg": i, "rows": rows, "cols": cols, "nel": rng.choice([1, 1, 2])}
+            if rng.random() < 0.3:
+                st["dtypes"] = [rng.choice(sorted(DTYPES)) for _ in range(2)]
+            if rng.random() < 0.2:
+                st["layout"] = rng.choice(["F", "view"])
+            steps.append(st)
+            L.append({"rows": rows, "cols": cols, "kind": kinds[i], "key": f"c{len(L)}"})
+            return len(L) - 1
+
+        def obs(j, kinds_of=("extent", "own", "rect", "px")):
+            o = rng.choice(kinds_of)
+            st = {"s": "obs", "laser": j, "o": o, "element": rng.choice([None, 0, 1])}
+            if o == "rect":
+                st["rect"] = self.gen_rect(rng, L[j]["rows"], L[j]["cols"])
+                st["modes"] = [rng.choice(["mul", "mul", "exact", "up", "down"]) for _ in range(4)]
+            steps.append(st)
+
+        def holders(key):
+            return [j for j, l in enumerate(L) if l["key"] == key]
+
+        two = rng.random() < 0.45
+        c0 = new_cfg()
+        l0 = new_laser(c0, not two)
+        if two:
+            mode = rng.choice(["share-mine", "share-laser", "separate", "second-config", "copy", "deepcopy"])
+            if mode in ("copy", "deepcopy"):  # copy.copy(laser): the same configuration object and data; deepcopy: its own
+                steps.append({"s": "copy", "laser": l0, "deep": mode == "deepcopy"})
+                L.append({**L[l0], "key": L[l0]["key"] if mode == "copy" else f"c{len(L)}"})
+                l1 = len(L) - 1
+            else:
+                l1 = new_laser(c0 if mode != "second-config" else new_cfg(), False)
+            if mode == "share-mine":  # both lasers hold the object the harness made
+                for j in (l0, l1):
+                    steps.append({"s": "assign", "laser": j, "cfg": c0})
+                    L[j].update(key=f"m{c0}", kind=kinds[c0])
+            elif mode == "share-laser":  # the second laser is given the object the first one holds
+                steps.append({"s": "assignl", "laser": l1, "from": l0})
+                L[l1].update(key=L[l0]["key"], kind=L[l0]["kind"])
+        if rng.random() < 0.8:
+            for j in range(len(L)):
+                obs(j)
+        for _ in range(rng.choice([2, 3, 3, 4, 5, 6])):
+            j = rng.randrange(len(L))
+            u = rng.random()
+            touched = [j]
+            if u < 0.30:  # one attribute, through the laser or through the harness's own reference
+                key = L[j]["key"]
+                attr = rng.choice(self.HEAP_ATTRS[L[j]["kind"]])
+                v, t = value(attr, L[j]["kind"])
+                if key.startswith("m") and rng.random() < 0.5:
+                    steps.append({"s": "set", "cfg": int(key[1:]), "attr": attr, "value": v, "type": t})
+                else:
+                    steps.append({"s": "setl", "laser": j, "attr": attr, "value": v, "type": t})
+                touched = holders(key)
+            elif u < 0.48:  # every attribute of the class, in a random order, sometimes with a look in between
+                key = L[j]["key"]
+                attrs = list(self.HEAP_ATTRS[L[j]["kind"]])
+                rng.shuffle(attrs)
+                for attr in attrs:
+                    v, t = value(attr, L[j]["kind"])
+                    steps.append({"s": "setl", "laser": j, "attr": attr, "value": v, "type": t})
+                    if rng.random() < 0.3:
+                        obs(rng.choice(holders(key)))
+                touched = holders(key)
+            elif u < 0.66:  # whole configuration replaced; the old object is forgotten, so that its id can come back
+                old = L[j]["key"]
+                i = new_cfg()
+                steps.append({"s": "assign", "laser": j, "cfg": i})
+                L[j].update(key=f"m{i}", kind=kinds[i])
+                if old.startswith("m") and not holders(old) and rng.random() < 0.8:
+                    steps.append({"s": "drop", "cfg": int(old[1:])})
+                if rng.random() < 0.6:
+                    steps.append({"s": "drop", "cfg": i})  # only the laser holds it now
+                    L[j]["key"] = f"x{len(steps)}"
+            elif u < 0.84:
+                rows, cols = L[j]["rows"], L[j]["cols"]
+                t = rng.random()
+                if t < 0.35:
+                    nr, nc = rows, cols
+                elif t < 0.6:
+                    nr, nc = rng.choice([(cols, rows), (rows, max(1, cols - 1)), (rows + 1, cols), (rows, cols + 1)])
+                else:
+                    nr, nc = shape(not two)
+                st = {"s": "data", "laser": j, "rows": nr, "cols": nc}
+                if rng.random() < 0.3:
+                    st["dtypes"] = [rng.choice(sorted(DTYPES)) for _ in range(2)]
+                steps.append(st)
+                L[j].update(rows=nr, cols=nc)
+            elif u < 0.92:
+                if L[j]["rows"] * L[j]["cols"] <= 400_000:
+                    steps.append({"s": "add", "laser": j})
+            else:
+                steps.append({"s": "remove", "laser": j, "index": rng.randint(0, 2)})
+            if rng.random() < 0.85:
+                for k in touched:
+                    for _ in range(rng.choice([1, 1, 2])):
+                        obs(k)
+        for j in range(len(L)):
+            obs(j, ("extent", "own"))
+        return {"kind": "heap", "steps": steps}
+
     def gen_srr_hist(self, rng):
         base = gen_srr(rng, max_vox=6000)
         M, n = base["mag"], base["n"]
         (l0, s0), (l1, s1) = base["shapes"]
         wmax = max(0, min(s0 - l1 * M, s1 - l0 * M))  # warm-up samples the layers can afford
         cur = {k: base[k] for k in ("spotsize", "speed", "scantime", "warmup", "pairs", "mag")}
+        dims = [[l0, l1, n]]  # lines of the two layer kinds and number of layers, per laser
+        second = None
+        if rng.random() < 0.3:  # a second SRRLaser that is given the SAME configuration object
+            k0, k1, n2 = rng.randint(1, 4), rng.randint(1, 4), rng.choice([2, 2, 3, 4])
+            second = {"shapes": [[k0, wmax + k1 * M + rng.choice([0, 1, 3])], [k1, wmax + k0 * M + rng.choice([0, 2])]], "n": n2}
+            dims.append([k0, k1, n2])
+
+        def fits(pairs, mag):
+            return all(srr_vox(pairs, mag, a, b_, k) <= 6000 for a, b_, k in dims)
 
         def new_pairs(equal):
             for _ in range(50):
@@ -418,7 +682,7 @@ class C10(Prop):
                     pairs = [[i, w] for i in range(w)]
                 else:
                     pairs = gen_pairs(rng)
-                if srr_vox(pairs, cur["mag"], l0, l1, n) <= 6000:
+                if fits(pairs, cur["mag"]):
                     return pairs
             return [[0, 1]]
 
@@ -427,9 +691,13 @@ class C10(Prop):
             seconds = w * scantime
             return seconds if warmup_samples(seconds, scantime) <= wmax else 0.0
 
-        steps = [{"change": None}] if rng.random() < 0.85 else []
-        for _ in range(rng.choice([1, 1, 2, 3])):
-            op = rng.choice(["pairs", "pairs", "equal", "equal", "warmup", "pairs+warmup", "triple", "replace"])
+        def look():
+            return {"order": rng.choice(["extent-first", "get-first"]), "how": rng.choice(["get", "get", "element", "flat"]),
+                    "on": rng.randrange(len(dims))}
+
+        steps = [{"change": None, **look()}] if rng.random() < 0.85 else []
+        for _ in range(rng.choice([1, 2, 2, 3, 4])):
+            op = rng.choice(["pairs", "pairs", "equal", "equal", "warmup", "pairs+warmup", "triple", "replace", "attrs", "attrs", "layers"])
             if op == "pairs":
                 ch = {"op": "set", "pairs": new_pairs(False)}
             elif op == "equal":
@@ -440,28 +708,145 @@ class C10(Prop):
                 ch = {"op": "set", "pairs": new_pairs(False), "warmup": new_warmup(cur["scantime"])}
             elif op == "replace":
                 ch = {"op": "replace", "pairs": new_pairs(rng.random() < 0.3), "warmup": new_warmup(cur["scantime"])}
-            else:  # spot size, speed and scan time in place (another float-integer magnification <= the old one), then the warm-up
+            elif op == "layers":  # the data replaced: the same or other numbers of lines, the list assigned or its entries
+                j = rng.randrange(len(dims))
+                a_, b_, k = dims[j]
+                if rng.random() < 0.6:
+                    a_, b_ = rng.randint(1, 6), rng.randint(1, 6)
+                if rng.random() < 0.4:
+                    k = rng.choice([2, 3, 4])
+                if srr_vox(cur["pairs"], cur["mag"], a_, b_, k) > 6000:
+                    a_, b_, k = dims[j]
+                dims[j] = [a_, b_, k]
+                ch = {"op": "layers", "on": j, "n": k, "how": rng.choice(["assign", "in-place"]),
+                      "shapes": [[a_, wmax + b_ * M + rng.choice([0, 1, 4])], [b_, wmax + a_ * M + rng.choice([0, 2])]]}
+            else:  # spot size, speed, scan time (another float-integer magnification <= the old one): all at once ("triple"), or one
+                # attribute after the other in a random order, possibly with warm-up and offsets in between ("attrs")
                 M2 = rng.randint(1, M)
                 spotsize, speed, scantime = int_mag_triple(rng, M2)
-                if srr_vox(cur["pairs"], M2, l0, l1, n) > 6000:
+                if not fits(cur["pairs"], M2):
                     ch = {"op": "set", "warmup": new_warmup(cur["scantime"])}
-                else:
+                elif op == "triple":
                     ch = {"op": "triple", "spotsize": spotsize, "speed": speed, "scantime": scantime, "mag": M2, "warmup": new_warmup(scantime)}
-            cur.update({k: v for k, v in ch.items() if k != "op"})
-            steps.append({"change": ch})
-        return {"kind": "srr_hist", **base, "steps": steps}
+                else:
+                    seq = [["spotsize", spotsize], ["speed", speed], ["scantime", scantime]]
+                    if rng.random() < 0.4:  # only some of them change
+                        keep = rng.choice(["spotsize", "speed", "scantime"])
+                        # a single attribute can only change when the magnification stays a float integer: recompute it
+                        seq = [[k_, v] for k_, v in seq if k_ != keep] if rng.random() < 0.5 else seq
+                    rng.shuffle(seq)
+                    full = {k_: v for k_, v in seq}
+                    new = {**{k_: cur[k_] for k_ in ("spotsize", "speed", "scantime")}, **full}
+                    fm = new["spotsize"] / (new["speed"] * new["scantime"])
+                    if not (fm == int(fm) and 1 <= fm <= M and fits(cur["pairs"], int(fm))):
+                        seq = [["spotsize", spotsize], ["speed", speed], ["scantime", scantime]]
+                        rng.shuffle(seq)
+                        new, fm = {"spotsize": spotsize, "speed": speed, "scantime": scantime}, M2
+                    extra = []
+                    if rng.random() < 0.5:
+                        extra.append(["warmup", new_warmup(new["scantime"])])
+                    if rng.random() < 0.3:
+                        extra.append(["pairs", new_pairs(False)])
+                    for e in extra:
+                        seq.insert(rng.randint(0, len(seq)), e)
+                    ch = {"op": "attrs", "seq": seq, "mag": int(fm)}
+                    if not any(k_ == "warmup" for k_, _ in seq):  # the warm-up stays what it was IN SAMPLES
+                        pass
+            upd = {k: v for k, v in ch.items() if k in ("spotsize", "speed", "scantime", "warmup", "pairs", "mag")}
+            if ch["op"] == "attrs":
+                upd.update({k_: v for k_, v in ch["seq"]})
+            cur.update(upd)
+            steps.append({"change": ch, **look()})
+        out = {"kind": "srr_hist", **base, "steps": steps}
+        if second:
+            out["second"] = second
+        return out
+
+    EXTREMES = [1e-300, 1e300, 5e-324, 2.2250738585072014e-308, 1e-310, 1.7976931348623157e308, 1e-160, 1e160, 2.0 ** -1000, 2.0 ** 1000]
+    F32_POOL = {"spotsize": [0.5, 1.0, 2.5, 4.0, 10.0, 12.5, 35.0], "speed": [1.0, 2.0, 4.0, 10.0, 20.0], "scantime": [0.125, 0.25, 0.5, 1.0],
+                "sx": [0.5, 1.0, 2.5, 4.0, 10.0, 12.5, 35.0], "sy": [0.25, 1.0, 2.5, 5.0, 20.0, 35.0]}
+
+    def gen_typed_cfg(self, rng):
+        """a configuration whose parameters are given as ints, NumPy scalars, 0-d arrays or float32 (same values)"""
+        cfg = gen_cfg(rng)
+        keys = [k for k in cfg if k != "kind"]
+        if rng.random() < 0.3:  # float32 throughout, on values float32 keeps exactly
+            for k in keys:
+                cfg[k] = rng.choice(self.F32_POOL[k])
+            return cfg, {k: "f32" for k in keys if rng.random() < 0.8}
+        if rng.random() < 0.35:  # every parameter of one type (integers: the pixel sizes are integers too)
+            t_ = rng.choice(["int", "int", "i64", "f64", "arr0"])
+            types = {k: t_ for k in keys}
+        else:
+            types = {k: rng.choice(["int", "i64", "f64", "arr0", "float"]) for k in keys}
+        for k, t in types.items():
+            if t in ("int", "i64"):
+                cfg[k] = float(rng.randint(1, 300))
+        if cfg["kind"] == "spot" and rng.random() < 0.25:
+            cfg["sy"], types["sy"] = cfg["sx"], "omitted"
+        return cfg, types
+
+    def gen_extreme_cfg(self, rng):
+        cfg = gen_cfg(rng)
+        keys = [k for k in cfg if k != "kind"]
+        for k in rng.sample(keys, rng.randint(1, len(keys))):
+            cfg[k] = rng.choice(self.EXTREMES)
+        return cfg
+
+    def gen_big_shape(self, rng, memory):
+        """one side of at least 4096 (a third of them at least 2^16); `memory`: the image is really allocated"""
+        if memory:
+            if rng.random() < 0.35:
+                a, b = rng.choice([2 ** 16, 2 ** 16 + 1, rng.randint(2 ** 16, 90_000)]), rng.randint(1, 5)
+            else:
+                a, b = rng.choice([4096, 4097, rng.randint(4096, 9000), rng.randint(4096, 20_000)]), rng.randint(1, 40)
+        else:
+            a = rng.choice([4096, rng.randint(4096, 2 ** 16), 2 ** 16, rng.randint(2 ** 16, 2 ** 20), 2 ** 24 + 1, 2 ** 28, rng.randint(2 ** 20, 2 ** 28)])
+            b = rng.choice([1, rng.randint(1, 4000), rng.randint(1, 2 ** 20), a])
+        return (a, b) if rng.random() < 0.5 else (b, a)
+
+    def gen_big_rect(self, rng, rows, cols):
+        """rectangles whose bounds lie in the upper part of the long side"""
+        def pair(n):
+            if n < 4096:
+                a, b = rng.randint(0, n), rng.randint(0, n)
+                return min(a, b), max(a, b)
+            t = rng.random()
+            if t < 0.35:
+                return rng.choice([0, rng.randint(0, n)]), n
+            if t < 0.5:
+                return n - 1, n
+            a, b = rng.randint(4096, n), rng.randint(4096, n)
+            return min(a, b), max(a, b)
+
+        r0, r1 = pair(rows)
+        c0, c1 = pair(cols)
+        return [r0, r1, c0, c1]
 
     def generate(self, rng, tier):
         t = rng.random()
-        if t < 0.17:
+        if t < 0.10:
             return self.gen_hist(rng, tier)
-        if t < 0.23:
+        if t < 0.26:
+            return self.gen_heap(rng, tier)
+        if t < 0.33:
             return self.gen_srr_hist(rng)
-        if t < 0.42:
-            return {"kind": "srr", **gen_srr(rng, max_vox=6000), "roundtrip": rng.random() < 0.3}
+        if t < 0.49:
+            return {"kind": "srr", **gen_srr(rng, max_vox=6000), "roundtrip": rng.random() < 0.3,
+                    "order": rng.choice(["extent-first", "get-first"]), "how": rng.choice(["get", "get", "element", "flat"])}
         cfg = gen_cfg(rng)
         rows, cols = self.gen_shape(rng, tier)
-        if t < 0.58:
+        if t < 0.61:
+            u = rng.random()
+            if u < 0.25:
+                rows, cols = self.gen_big_shape(rng, False)
+            elif u < 0.45:
+                cfg, types = self.gen_typed_cfg(rng)
+                if "f32" in types.values():
+                    rows, cols = rng.randint(1, 100), rng.randint(1, 100)
+                return {"kind": "extent", "cfg": cfg, "rows": rows, "cols": cols, "types": types}
+            elif u < 0.6:
+                return {"kind": "extent", "cfg": self.gen_extreme_cfg(rng), "rows": rng.randint(1, 50), "cols": rng.randint(1, 50)}
             return {"kind": "extent", "cfg": cfg, "rows": rows, "cols": cols}
         nel = rng.choice([1, 1, 2])
         if rows * cols > 400_000:
@@ -470,10 +855,39 @@ class C10(Prop):
         if rows <= 4 and cols <= 4 and rng.random() < 0.7:
             return {"kind": "get_all", "cfg": cfg, "rows": rows, "cols": cols, "nel": nel, "element": element,
                     "mode": rng.choice(["mul", "exact", "up", "down"])}
-        rect = self.gen_rect(rng, rows, cols)
+        u = rng.random()
+        extra = {}
+        if u < 0.16:  # long images: boundary indices above 4096 and above 2^16
+            rows, cols = self.gen_big_shape(rng, True)
+            nel, element = 1, rng.choice([None, 0])
+            rect = self.gen_big_rect(rng, rows, cols)
+        elif u < 0.36:  # parameters, bounds and data of other numeric types, other memory layouts, the extent as a list / array
+            cfg, types = self.gen_typed_cfg(rng)
+            if "f32" in types.values():
+                rows, cols = rng.randint(1, 100), rng.randint(1, 100)
+            else:
+                rows, cols = rng.randint(1, 120), rng.randint(1, 120)
+            rect = self.gen_rect(rng, rows, cols)
+            extra = {"types": types, "dtypes": [rng.choice(sorted(DTYPES)) for _ in range(2)], "layout": rng.choice(["C", "C", "F", "view"]),
+                     "opts": {"btypes": ([rng.choice(["f64", "int", "int", "i64", "f32", "arr0"])] * 4 if rng.random() < 0.5
+                                         else [rng.choice(["float", "f64", "int", "i64", "f32", "arr0"]) for _ in range(4)]),
+                              "container": rng.choice(["tuple", "tuple", "list", "array"]),
+                              "calibrate": rng.choice(["omit", "omit", "False", "None"])}}
+        elif u < 0.42:
+            cfg = self.gen_extreme_cfg(rng)
+            rows, cols = rng.randint(1, 30), rng.randint(1, 30)
+            rect = self.gen_rect(rng, rows, cols)
+        else:
+            rect = self.gen_rect(rng, rows, cols)
+            if rng.random() < 0.25:
+                extra = {"dtypes": [rng.choice(sorted(DTYPES)) for _ in range(2)], "layout": rng.choice(["C", "F", "view"])}
         own = rect == [0, rows, 0, cols] and rng.random() < 0.7
         modes = ["own"] * 4 if own else [rng.choice(["mul", "mul", "exact", "up", "down"]) for _ in range(4)]
-        return {"kind": "get", "cfg": cfg, "rows": rows, "cols": cols, "nel": nel, "element": element, "rect": rect, "modes": modes}
+        if rng.random() < 0.15:
+            extra = {**extra, "ctor": "from_list"}
+        if rng.random() < 0.2:
+            extra = {**extra, "types": {**extra.get("types", {}), "_positional": True}}
+        return {"kind": "get", "cfg": cfg, "rows": rows, "cols": cols, "nel": nel, "element": element, "rect": rect, "modes": modes, **extra}
 
     def targeted(self, tier):
         cfgs = [{"kind": "raster", "spotsize": 35.0, "speed": 1.7, "scantime": 0.1},
@@ -533,8 +947,93 @@ class C10(Prop):
             yield hist(cfg, 2, 9, (None, [O]), (setc(**{k: 0.7}), []), (setc(**{k: 1.3}), [O, E]))
             yield hist(cfg, 2, 9, (None, [E]), ({"op": "replace", "cfg": same}, [E]), (setc(**{k: 0.7}), [E, O]))
             yield hist(cfg, 2, 9, (None, [E]), ({"op": "data", "rows": 9, "cols": 2}, [E]), (setc(**{k: 0.7}), [E, O]))
+        # ---- histories on configuration objects and lasers that may share one (kind "heap")
+        import itertools
+
+        def ob(j, o="extent", **kw):
+            return {"s": "obs", "laser": j, "o": o, "element": 0, **kw}
+
+        def both(j):
+            return [ob(j), ob(j, "own"), ob(j, "px"), ob(j, "rect", rect=[0, 2, 1, 3], modes=["mul"] * 4)]
+
+        r35 = {"kind": "raster", "spotsize": 35.0, "speed": 140.0, "scantime": 0.25}
+        # one object held by two lasers, edited through the harness's reference, through one laser, through the other
+        yield {"kind": "heap", "steps": [{"s": "cfg", "cfg": ras}, {"s": "laser", "cfg": 0, "rows": 3, "cols": 4}, {"s": "laser", "cfg": 0, "rows": 5, "cols": 3},
+                                         {"s": "assign", "laser": 0, "cfg": 0}, {"s": "assign", "laser": 1, "cfg": 0}, *both(0), *both(1),
+                                         {"s": "set", "cfg": 0, "attr": "scantime", "value": 6.0}, *both(1), *both(0),
+                                         {"s": "setl", "laser": 0, "attr": "spotsize", "value": 0.1 * 3}, *both(1), *both(0),
+                                         {"s": "setl", "laser": 1, "attr": "speed", "value": 33.3}, *both(0), *both(1)]}
+        yield {"kind": "heap", "steps": [{"s": "cfg", "cfg": spt}, {"s": "laser", "cfg": 0, "rows": 3, "cols": 4}, {"s": "laser", "cfg": 0, "rows": 2, "cols": 6},
+                                         {"s": "assignl", "laser": 1, "from": 0}, *both(0), *both(1),
+                                         {"s": "setl", "laser": 0, "attr": "spotsize_y", "value": 0.007}, *both(1),
+                                         {"s": "setl", "laser": 1, "attr": "spotsize", "value": 1 / 3}, *both(0),
+                                         {"s": "setl", "laser": 1, "attr": "speed", "value": 7.0}, {"s": "setl", "laser": 1, "attr": "scantime", "value": 0.3}, *both(0), *both(1)]}
+        # the constructor's copy: editing the object handed to the constructor, then the laser's own
+        yield {"kind": "heap", "steps": [{"s": "cfg", "cfg": r35}, {"s": "laser", "cfg": 0, "rows": 4, "cols": 4}, ob(0), {"s": "set", "cfg": 0, "attr": "speed", "value": 1.7}, *both(0),
+                                         {"s": "setl", "laser": 0, "attr": "speed", "value": 2.9}, *both(0)]}
+        # every order of the attributes, a look after each assignment; first look direct or through get(extent=own)
+        for kind_cfg, attrs, vals in ((cfgs[0], ("spotsize", "speed", "scantime"), {"spotsize": 0.1 * 3, "speed": 33.3, "scantime": 0.007}),
+                                      (cfgs[2], ("spotsize", "spotsize_y", "speed", "scantime"), {"spotsize": 33.3 * 1.3, "spotsize_y": 1 / 3, "speed": 5.0, "scantime": 0.5})):
+            for n_, perm in enumerate(itertools.permutations(attrs)):
+                if len(attrs) == 4 and n_ % 3:
+                    continue
+                first = "extent" if n_ % 2 else "own"
+                steps = [{"s": "cfg", "cfg": kind_cfg}, {"s": "laser", "cfg": 0, "rows": 5, "cols": 3}, ob(0, first)]
+                for a_ in perm:
+                    steps += [{"s": "setl", "laser": 0, "attr": a_, "value": vals[a_]}, ob(0, "own" if first == "extent" else "extent"), ob(0, "px")]
+                yield {"kind": "heap", "steps": steps}
+        # configuration replaced again and again, the old objects forgotten (a freed object's id comes back), data re-assigned
+        for base_cfg in (ras, spt):
+            steps = [{"s": "cfg", "cfg": base_cfg}, {"s": "laser", "cfg": 0, "rows": 4, "cols": 6}, {"s": "drop", "cfg": 0}, ob(0), ob(0, "own")]
+            for n_ in range(1, 9):
+                c_ = ({"kind": "raster", "spotsize": 10.0 + n_, "speed": 1.7 * n_, "scantime": 0.1 * n_} if (n_ + (base_cfg is spt)) % 2
+                      else {"kind": "spot", "sx": 0.3 * n_, "sy": 7.0 / n_})
+                steps += [{"s": "cfg", "cfg": c_}, {"s": "assign", "laser": 0, "cfg": n_}, {"s": "drop", "cfg": n_}, ob(0, "own" if n_ % 2 else "extent"), ob(0, "px")]
+                if n_ % 3 == 0:
+                    steps += [{"s": "data", "laser": 0, "rows": 4, "cols": 6}, ob(0), {"s": "data", "laser": 0, "rows": 6, "cols": 4}, ob(0, "own")]
+            yield {"kind": "heap", "steps": steps}
+        # two lasers built one after the other from separately made configurations (the first is forgotten first)
+        yield {"kind": "heap", "steps": [{"s": "cfg", "cfg": ras}, {"s": "laser", "cfg": 0, "rows": 3, "cols": 3}, ob(0), {"s": "drop", "cfg": 0},
+                                         {"s": "cfg", "cfg": cfgs[1]}, {"s": "laser", "cfg": 1, "rows": 3, "cols": 3}, ob(1), ob(0), {"s": "drop", "cfg": 1},
+                                         {"s": "cfg", "cfg": cfgs[2]}, {"s": "assign", "laser": 0, "cfg": 2}, ob(0), ob(1), ob(0, "own"), ob(1, "own")]}
+        # ---- long images: the boundary indices at which a 12-decimal snap (seeded C10-c1) loses a pixel, and beyond 2^16
+        for cfg_, rows_, cols_ in (({"kind": "raster", "spotsize": 35.0, "speed": 0.1, "scantime": 3.0}, 2, 6848),
+                                   ({"kind": "spot", "sx": 35.0, "sy": 140 * 0.07}, 6700, 3), (cfgs[1], 3, 2 ** 16 + 5), (cfgs[2], 70_001, 2)):
+            yield {"kind": "get", "cfg": cfg_, "rows": rows_, "cols": cols_, "nel": 1, "element": 0, "rect": [0, rows_, 0, cols_], "modes": ["own"] * 4}
+            for mode_ in ("mul", "down", "up", "exact"):
+                yield {"kind": "get", "cfg": cfg_, "rows": rows_, "cols": cols_, "nel": 1, "element": None,
+                       "rect": [rows_ - 1 if rows_ > 4096 else 0, rows_, cols_ - 1 if cols_ > 4096 else 0, cols_], "modes": [mode_] * 4}
+            yield {"kind": "extent", "cfg": cfg_, "rows": rows_ * 1000, "cols": cols_ * 1000}
+        yield {"kind": "extent", "cfg": cfgs[1], "rows": 2 ** 28, "cols": 2 ** 28}
+        # ---- parameters / bounds / data of other numeric types
+        for types_ in ({"spotsize": "int", "speed": "int", "scantime": "int"}, {"spotsize": "f32", "speed": "f32", "scantime": "f32"},
+                       {"spotsize": "arr0", "speed": "i64", "scantime": "f64"}):
+            c_ = {"kind": "raster", "spotsize": 35.0, "speed": 10.0, "scantime": 2.0 if "int" in types_.values() else 0.25}
+            yield {"kind": "extent", "cfg": c_, "rows": 7, "cols": 9, "types": types_}
+            for cont in ("tuple", "list", "array"):
+                yield {"kind": "get", "cfg": c_, "rows": 7, "cols": 9, "nel": 2, "element": None, "rect": [1, 7, 2, 9], "modes": ["mul"] * 4, "types": types_,
+                       "dtypes": ["f4", "u2"], "layout": "view", "opts": {"btypes": ["f32", "int", "i64", "arr0"], "container": cont, "calibrate": "None"}}
+            for bt in ("int", "i64", "f64", "f32", "arr0"):
+                yield {"kind": "get", "cfg": c_, "rows": 7, "cols": 9, "nel": 1, "element": 0, "rect": [2, 7, 1, 9], "modes": ["mul"] * 4, "types": types_,
+                       "dtypes": ["i4"], "layout": "F", "opts": {"btypes": [bt] * 4, "container": "tuple", "calibrate": "False"}}
+        yield {"kind": "extent", "cfg": {"kind": "spot", "sx": 12.5, "sy": 12.5}, "rows": 3, "cols": 5, "types": {"sx": "f32", "sy": "omitted"}}
+        # ---- extreme magnitudes: the values must come back from the array form exactly
+        for c_ in ({"kind": "raster", "spotsize": 1e-300, "speed": 1e300, "scantime": 1e-300}, {"kind": "raster", "spotsize": 5e-324, "speed": 1e160, "scantime": 1e-160},
+                   {"kind": "spot", "sx": 1.7976931348623157e308, "sy": 2.2250738585072014e-308}, {"kind": "spot", "sx": 1e-310, "sy": 1e300}):
+            yield {"kind": "extent", "cfg": c_, "rows": 3, "cols": 2}
+            yield {"kind": "get", "cfg": c_, "rows": 3, "cols": 2, "nel": 1, "element": 0, "rect": [0, 3, 0, 2], "modes": ["mul"] * 4}
         base = {"spotsize": 70.0, "speed": 140.0, "scantime": 0.25, "warmup": 0.5, "pairs": [[0, 2], [1, 2]],
                 "mag": 2, "n": 2, "shapes": [[2, 12], [3, 10]], "short": None, "wmode": "exact"}
+        # SRR: two lasers sharing the configuration; attributes one by one; layers replaced; reconstruction read first
+        yield {"kind": "srr_hist", **base, "second": {"shapes": [[1, 12], [4, 8]], "n": 3}, "steps": [
+            {"change": None, "order": "get-first", "on": 0}, {"change": None, "order": "get-first", "on": 1},
+            {"change": {"op": "set", "pairs": [[0, 2], [0, 2]]}, "order": "get-first", "on": 1}, {"change": None, "order": "extent-first", "on": 0},
+            {"change": {"op": "equal", "pairs": [[0, 4], [1, 4], [2, 4], [3, 4]]}, "order": "get-first", "how": "flat", "on": 0},
+            {"change": {"op": "attrs", "seq": [["scantime", 0.5], ["spotsize", 140.0], ["speed", 140.0]], "mag": 2}, "order": "get-first", "on": 1},
+            {"change": {"op": "attrs", "seq": [["spotsize", 70.0]], "mag": 1}, "order": "extent-first", "on": 0},
+            {"change": {"op": "layers", "on": 0, "n": 2, "how": "in-place", "shapes": [[2, 12], [3, 10]]}, "order": "get-first", "on": 0},
+            {"change": {"op": "layers", "on": 0, "n": 3, "how": "assign", "shapes": [[4, 12], [1, 10]]}, "order": "get-first", "on": 0},
+            {"change": {"op": "replace", "pairs": [[1, 2]], "warmup": 0.5}, "order": "get-first", "on": 0}, {"change": None, "order": "get-first", "on": 1}]}
         yield {"kind": "srr_hist", **base, "steps": [
             {"change": None}, {"change": {"op": "set", "pairs": [[0, 3], [1, 3], [2, 3]]}},
             {"change": {"op": "equal", "pairs": [[0, 4], [1, 4], [2, 4], [3, 4]]}}, {"change": {"op": "set", "warmup": 0.0}},
@@ -554,55 +1053,71 @@ class C10(Prop):
             yield {"kind": "get", "cfg": cfg, "rows": rows, "cols": cols, "nel": 1, "element": 0, "rect": [0, rows, 0, cols], "modes": ["own"] * 4}
 
     # ------------------------------------------------------------------ evaluation
-    def make_laser(self, cfg, rows, cols, nel, tokens=True):
+    def make_laser(self, cfg, rows, cols, nel, tokens=True, types=None, dtypes=None, layout="C", ctor=None):
         from pewlib.laser import Laser
 
         names = ["A", "B"][:nel]
-        if not tokens:
-            data = np.empty((rows, cols), dtype=[(n, np.uint8) for n in names])
+        if not tokens:  # only the shape matters: a read-only broadcast view of one pixel, so that any shape costs no memory
+            data = np.broadcast_to(np.zeros((), dtype=[(n, np.uint8) for n in names]), (rows, cols))
         else:
-            data = token_data(rows, cols, list(zip(names, range(nel))))
-        return Laser(data, config=make_cfg(cfg)), names
+            data = token_data(rows, cols, list(zip(names, range(nel))), dtypes, layout)
+        if tokens and ctor == "from_list":  # the other public way to make a Laser (the fields become float64)
+            return Laser.from_list(names, [data[n] for n in names], config=make_cfg(cfg, types)), names
+        return Laser(data, config=make_cfg(cfg, types)), names
 
-    def observe_extent(self, laser, cfg, rows, cols, ctx):
+    def observe_extent(self, laser, cfg, rows, cols, ctx, feats=None):
         """pixel sizes, Laser.extent, data_extent and their array round trip of the laser AS IT IS NOW against the
-        driver's model/spec for `cfg`, `rows`, `cols` -> (impl, model, spec, spec_ok, model_ok).
-        The array form is compared as NumPy built it (dtype field names in order, shape, values), and `from_array` of
-        Config and SpotConfig is run on the real arrays of all three configuration classes."""
+        driver's model/spec for `cfg`, `rows`, `cols` (the state the harness APPLIED, never read back from pewlib)
+        -> (impl, model, spec, spec_ok, model_ok).
+        The array form is compared as NumPy built it (dtype field names in order, field dtypes, shape, values), the
+        configuration read back from it must hold EXACTLY the applied values, and `from_array` of Config and SpotConfig is
+        run on the real arrays of all three configuration classes."""
         from pewlib.config import Config, SpotConfig
         from pewlib.srr.config import SRRConfig
 
+        feats = set() if feats is None else feats
         conf = laser.config
         own = conf.to_array()
         rt = type(conf).from_array(own)
         if cfg["kind"] == "raster":
-            others = [SpotConfig(spotsize=cfg["spotsize"], spotsize_y=cfg["speed"]).to_array(),
-                      SRRConfig(spotsize=cfg["spotsize"], speed=cfg["speed"], scantime=cfg["scantime"]).to_array()]
+            applied = [cfg["spotsize"], cfg["speed"], cfg["scantime"]]
+            others = [lambda: SpotConfig(spotsize=cfg["spotsize"], spotsize_y=cfg["speed"]).to_array(),
+                      lambda: SRRConfig(spotsize=cfg["spotsize"], speed=cfg["speed"], scantime=cfg["scantime"]).to_array()]
         else:
-            others = [Config(spotsize=cfg["sx"], speed=cfg["sy"], scantime=1.0).to_array(),
-                      SRRConfig(spotsize=cfg["sx"], speed=cfg["sy"], scantime=0.25).to_array()]
+            applied = [cfg["sx"], cfg["sy"]]
+            others = [lambda: Config(spotsize=cfg["sx"], speed=cfg["sy"], scantime=1.0).to_array(),
+                      lambda: SRRConfig(spotsize=cfg["sx"], speed=cfg["sy"], scantime=0.25).to_array()]
+        if all(Fraction(1, 10 ** 9) <= Fraction(v) <= 10 ** 9 for v in applied):
+            others = [f() for f in others]
+        else:  # extreme magnitudes: the other classes' constructors (SRR warm-up in samples) are outside their own domain
+            others = []
         encs = [enc_rec(a) for a in [own] + others]
         if any(e is None for e in encs):
             raise core.InternalError("a configuration array is not a 0-d / 1-d structured array of floats and (k, 2) integer tables")
+
+        def values_of(c):
+            if isinstance(c, SpotConfig):
+                return {"kind": "spot", "values": [rat(float(c.spotsize)), rat(float(c.spotsize_y))]}
+            return {"kind": "raster", "values": [rat(float(c.spotsize)), rat(float(c.speed)), rat(float(c.scantime))]}
 
         def from_arr(cls, a):
             try:
                 c = cls.from_array(a)
             except Exception as e:
                 return {"raises": type(e).__name__}
-            if isinstance(c, SpotConfig):
-                return {"kind": "spot", "values": [rat(float(c.spotsize)), rat(float(c.spotsize_y))]}
-            return {"kind": "raster", "values": [rat(float(c.spotsize)), rat(float(c.speed)), rat(float(c.scantime))]}
+            return values_of(c)
 
         impl = {"pw": float(conf.get_pixel_width()), "ph": float(conf.get_pixel_height()),
                 "extent": [float(v) for v in laser.extent],
                 "data_extent": [float(v) for v in conf.data_extent((rows, cols))],
-                "array": encs[0],
+                "array": encs[0], "dtypes": [own.dtype[n].str for n in own.dtype.names],
                 "roundtrip": {"pw": float(rt.get_pixel_width()), "ph": float(rt.get_pixel_height()),
-                              "extent": [float(v) for v in rt.data_extent((rows, cols))]},
+                              "extent": [float(v) for v in rt.data_extent((rows, cols))], **values_of(rt)},
                 "from_arrays": [{"raster": from_arr(Config, a), "spot": from_arr(SpotConfig, a)} for a in [own] + others]}
         rep = ctx.driver.call("c10.extent", cfg=cfg_json(cfg), rows=rows, cols=cols, arrays=encs)
         m, s = rep["model"], rep["spec"]
+        if not rep["positive"]:
+            raise core.InternalError("a configuration parameter is not positive")
 
         def agrees(pw, ph, ext):
             return (fclose(impl["pw"], unrat(pw)) and fclose(impl["ph"], unrat(ph))
@@ -617,28 +1132,48 @@ class C10(Prop):
                 return o.get("raises") == j.get("raises")
             return o["kind"] == j["kind"] and o["values"] == j["values"]
 
-        spec_ok = agrees(s["pw"], s["ph"], s["extent"])
+        # "these values survive the configuration's array round trip": the configuration read back holds exactly what was applied
+        survived = impl["roundtrip"]["kind"] == cfg["kind"] and impl["roundtrip"]["values"] == [rat(v) for v in applied]
+        if not all(in_range(unrat(v)) for v in [s["pw"], s["ph"]] + list(s["extent"])):
+            feats.add("extreme: an exact value outside the normal float64 range (that value recorded only)")
+        else:  # recorded only: is the implementation bit-for-bit the float64 pipeline of the model (`fl`)?
+            mf = rep["modelF"]
+            same = ([rat(impl["pw"]), rat(impl["ph"])] == [mf["pw"], mf["ph"]] and [rat(v) for v in impl["extent"]] == mf["extent"])
+            feats.add("extent bit-for-bit the float64 model" if same else "extent differs from the float64 model in the last bits (recorded only)")
+        spec_ok = agrees(s["pw"], s["ph"], s["extent"]) and survived
         model_ok = (agrees(m["pw"], m["ph"], m["extent"]) and "extent" in m["roundtrip"]
                     and ext_close(impl["roundtrip"]["extent"], m["roundtrip"]["extent"]) and m["data_extent"] == m["extent"]
-                    and canon_eq(impl["array"], m["array"])
-                    and all(same_outcome(o[k], j[k]) for o, j in zip(impl["from_arrays"], m["from_arrays"]) for k in ("raster", "spot")))
+                    and same_outcome(impl["roundtrip"], m["roundtrip"])
+                    and canon_eq(impl["array"], m["array"]) and impl["dtypes"] == m["dtypes"]
+                    and same_outcome(impl["from_arrays"][0][cfg["kind"]], m["from_arrays"][0][cfg["kind"]]))
+        # what from_array does with the array of ANOTHER configuration class (which exception, or which values) is behaviour no
+        # clause of the property speaks about: compared with the model, a difference is recorded only (DESIGN 13.2)
+        cross = all(same_outcome(o[k], j[k]) for o, j in zip(impl["from_arrays"], m["from_arrays"]) for k in ("raster", "spot"))
+        feats.add("from_array on other classes' arrays: as the model" if cross else "from_array on other classes' arrays differs from the model (recorded only)")
         return impl, m, s, spec_ok, model_ok
 
     def eval_extent(self, case, ctx):
         cfg, rows, cols = case["cfg"], case["rows"], case["cols"]
-        laser, _ = self.make_laser(cfg, rows, cols, 1, tokens=False)
-        impl, m, s, spec_ok, model_ok = self.observe_extent(laser, cfg, rows, cols, ctx)
+        types = safe_types(cfg, case.get("types"), rows, cols)
+        laser, _ = self.make_laser(cfg, rows, cols, 1, tokens=False, types=types)
         feats = {"extent", cfg["kind"], "side>=1000" if max(rows, cols) >= 1000 else "side<1000"}
+        impl, m, s, spec_ok, model_ok = self.observe_extent(laser, cfg, rows, cols, ctx, feats)
         if min(rows, cols) == 1:
             feats.add("side=1")
+        for lim, name in ((4096, "side>=4096"), (2 ** 16, "side>=2^16"), (2 ** 24, "side>=2^24")):
+            if max(rows, cols) >= lim:
+                feats.add(name)
+        for k, t in sorted((types or {}).items()):
+            if k in cfg and isinstance(t, str):
+                feats.add("parameter type: " + type_used(cfg[k], t))
         return outcome(impl, m, s, spec_ok=spec_ok, model_ok=model_ok, features=feats)
 
-    def read(self, laser, fields, element, ext, cols, rows, full):
+    def read(self, laser, fields, element, ext, cols, rows, full, kwargs=None):
         """`fields`: [(name, k)] of the token-carrying fields (pixel (r, c) of field k holds r*cols + c + 1 + k*rows*cols);
         `element`: index into `fields`, or None for the structured read"""
         el = None if element is None else fields[element][0]
         try:
-            res = laser.get(el, extent=ext)
+            res = laser.get(el, extent=ext, **(kwargs or {}))
         except Exception as e:
             return {"raises": type(e).__name__, "msg": str(e)[:200]}
         if el is None:
@@ -646,20 +1181,52 @@ class C10(Prop):
             return parts[0] if all(canon_eq(p, parts[0]) for p in parts) else {"fields_differ": parts}
         return summarize(res, cols, fields[element][1] * rows * cols, full)
 
-    def observe_get(self, laser, fields, element, cfg, rows, cols, rect, modes, full, ctx, feats):
-        """one read of the region bounded by the pixel boundaries `rect` = [r0, r1, c0, c1] of the laser AS IT IS NOW
-        (`modes`: how the four float bounds are computed; "own" = the laser's own reported extent) against the driver's
-        model/spec for `cfg`, `rows`, `cols` -> (impl, model, spec, undetermined, hyp)"""
+    def float_bounds(self, laser, cfg, rect, modes):
+        """the four float bounds of the pixel boundaries `rect`, computed from the APPLIED parameters `cfg` the way a caller
+        would (pixel width = the float product speed * scantime), or the extent pewlib reports itself ("own")"""
         r0, r1, c0, c1 = rect
         if modes[0] == "own":
-            ext = tuple(float(v) for v in laser.extent)
+            return tuple(float(v) for v in laser.extent)
+        if cfg["kind"] == "raster":
+            px, py = float(cfg["speed"]) * float(cfg["scantime"]), float(cfg["spotsize"])
+            pw_exact, ph_exact = Fraction(cfg["speed"]) * Fraction(cfg["scantime"]), Fraction(cfg["spotsize"])
         else:
-            px, py = laser.config.get_pixel_width(), laser.config.get_pixel_height()
-            pw_exact = Fraction(cfg["speed"]) * Fraction(cfg["scantime"]) if cfg["kind"] == "raster" else Fraction(cfg["sx"])
-            ph_exact = Fraction(cfg["spotsize"]) if cfg["kind"] == "raster" else Fraction(cfg["sy"])
-            ext = (bound(modes[0], c0, px, pw_exact), bound(modes[1], c1, px, pw_exact),
-                   bound(modes[2], r0, py, ph_exact), bound(modes[3], r1, py, ph_exact))
-        impl = self.read(laser, fields, element, ext, cols, rows, full)
+            px, py = float(cfg["sx"]), float(cfg["sy"])
+            pw_exact, ph_exact = Fraction(cfg["sx"]), Fraction(cfg["sy"])
+        return (bound(modes[0], c0, px, pw_exact), bound(modes[1], c1, px, pw_exact),
+                bound(modes[2], r0, py, ph_exact), bound(modes[3], r1, py, ph_exact))
+
+    def observe_get(self, laser, fields, element, cfg, rows, cols, rect, modes, full, ctx, feats, opts=None):
+        """one read of the region bounded by the pixel boundaries `rect` = [r0, r1, c0, c1] of the laser AS IT IS NOW
+        (`modes`: how the four float bounds are computed from the applied parameters; "own" = the laser's own reported
+        extent) against the driver's model/spec for `cfg`, `rows`, `cols` -> (impl, model, spec, undetermined, hyp, model_ok).
+        `opts`: {"btypes": type of each bound, "container": tuple | list | array, "calibrate": omit | False | None}"""
+        r0, r1, c0, c1 = rect
+        opts = opts or {}
+        ext = self.float_bounds(laser, cfg, rect, modes)
+        if not all(math.isfinite(v) for v in ext):  # (extreme parameters: the product k * pixel size overflowed)
+            feats.add("extreme: a bound overflowed (not read)")
+            skipped = {"skipped": "a bound is not finite"}
+            return skipped, skipped, skipped, True, True, True
+        given = list(ext)
+        pxf = float(cfg["speed"]) * float(cfg["scantime"]) if cfg["kind"] == "raster" else float(cfg["sx"])
+        pyf = float(cfg["spotsize"]) if cfg["kind"] == "raster" else float(cfg["sy"])
+        for i, t in enumerate(opts.get("btypes") or []):
+            if t == "f32":  # only where float32 holds bound and pixel size exactly (NumPy divides in float32 then)
+                p = pxf if i < 2 else pyf
+                if not (f32_exact(p) and float(np.float32(ext[i])) == ext[i] and abs(ext[i]) < 2 ** 20):
+                    t = "float"
+            given[i] = typed(ext[i], t)
+            feats.add("bound type: " + type_used(ext[i], t) if not (t == "f32" and isinstance(given[i], np.float32)) else "bound type: f32")
+        cont = opts.get("container", "tuple")
+        arg = tuple(given) if cont == "tuple" else (list(given) if cont == "list" else np.array([float(v) for v in given]))
+        if cont != "tuple":
+            feats.add("extent given as " + cont)
+        kwargs = {}
+        if opts.get("calibrate", "omit") != "omit":
+            kwargs["calibrate"] = {"False": False, "None": None}[opts["calibrate"]]
+            feats.add("calibrate=" + opts["calibrate"])
+        impl = self.read(laser, fields, element, arg, cols, rows, full, kwargs)
         rep = ctx.driver.call("c10.get", cfg=cfg_json(cfg), rows=rows, cols=cols, full=full,
                               extent=[rat(v) for v in ext], rect=rect)
         # margins are in units of 1e-6 of the quotient; 1e-3 there = 1e-9 of the quotient
@@ -683,26 +1250,66 @@ class C10(Prop):
             feats.add("empty-rect")
         if (r1 == rows and r0 < r1) or (c1 == cols and c0 < c1):
             feats.add("touches-last")
-        return impl, rep["model"], rep["spec"], undet, hyp
+        for lim, name in ((4096, "boundary index >= 4096"), (2 ** 16, "boundary index >= 2^16")):
+            if max(rect) >= lim:
+                feats.add(name)
+        # the float64 pipeline of the model; when every bound is near its boundary (hypotheses of `get_float_config`) the
+        # theorem says it IS the specification
+        pwq, phq = unrat(rep["pwF"]), unrat(rep["phF"])
+        normal = in_range(pwq) and in_range(phq) and pwq > 0 and phq > 0 \
+            and in_range(Fraction(cfg["speed"]) * Fraction(cfg["scantime"]) if cfg["kind"] == "raster" else Fraction(1)) \
+            and all(in_range(Fraction(v)) or abs(Fraction(v)) < p / 10 ** 9  # (a subnormal bound next to zero: the quotient is ~0 anyway)
+                    for v, p in zip(ext, (pwq, pwq, phq, phq)))
+        model_ok = canon_eq(impl, rep["model"])
+        if all(rep["near"]) and max(rows, cols) <= 2 ** 28:
+            feats.add("bounds near their boundaries: float64 theorem applies")
+            if not canon_eq(rep["modelF"], rep["spec"]):
+                raise core.InternalError("get_float_config contradicted by the driver")
+        if normal:
+            model_ok = model_ok and canon_eq(impl, rep["modelF"])
+        else:  # a pixel size or bound that is subnormal, zero by underflow or infinite: outside what the model's `fl` describes
+            feats.add("extreme: a value outside the normal float64 range (read not judged)")
+            undet = True
+        return impl, rep["model"], rep["spec"], undet, hyp, model_ok
 
     def eval_get(self, case, ctx, rects):
         cfg, rows, cols, nel = case["cfg"], case["rows"], case["cols"], case["nel"]
-        laser, names = self.make_laser(cfg, rows, cols, nel)
+        types = safe_types(cfg, case.get("types"), rows, cols)
+        laser, names = self.make_laser(cfg, rows, cols, nel, types=types, dtypes=case.get("dtypes"), layout=case.get("layout", "C"),
+                                       ctor=case.get("ctor"))
+        if case.get("ctor") == "from_list":
+            feats_ctor = "laser made by Laser.from_list"
+        else:
+            feats_ctor = None
         fields = list(zip(names, range(nel)))
         full = rows * cols <= 64
         impl, model, spec = [], [], []
         feats = {"get", cfg["kind"], "structured-read" if case["element"] is None else "element-read"}
+        if feats_ctor:
+            feats.add(feats_ctor)
+        if (types or {}).get("_positional"):
+            feats.add("configuration made with positional arguments")
         undet = False
-        hyp = True
+        hyp = model_ok = True
         for rect, modes in rects:
-            i, m, s, u, h = self.observe_get(laser, fields, case["element"], cfg, rows, cols, rect, modes, full, ctx, feats)
+            i, m, s, u, h, mok = self.observe_get(laser, fields, case["element"], cfg, rows, cols, rect, modes, full, ctx, feats,
+                                                  case.get("opts"))
             impl.append(i)
             model.append(m)
             spec.append(s)
             undet = undet or u
             hyp = hyp and h
+            model_ok = model_ok and mok
         feats.add("side>=1000" if max(rows, cols) >= 1000 else ("side<=8" if max(rows, cols) <= 8 else "side 9..999"))
-        return outcome(impl, model, spec, undetermined=undet, hyp=hyp, features=feats)
+        for k, t in sorted((types or {}).items()):
+            if k in cfg and isinstance(t, str):
+                feats.add("parameter type: " + type_used(cfg[k], t))
+        for d in sorted(set(laser.data.dtype[n].str for n in laser.data.dtype.names)):
+            feats.add("data dtype " + d)
+        if case.get("layout", "C") != "C":
+            feats.add("data layout " + ("Fortran order" if laser.data.flags["F_CONTIGUOUS"] and not laser.data.flags["C_CONTIGUOUS"]
+                                        else ("strided view" if not laser.data.flags["C_CONTIGUOUS"] else "C")))
+        return outcome(impl, model, spec, model_ok=model_ok, undetermined=undet, hyp=hyp, features=feats)
 
     def srr_layers(self, shapes):
         layers = []
@@ -712,26 +1319,41 @@ class C10(Prop):
             layers.append(a)
         return layers
 
-    def observe_srr(self, laser, cur, shapes, ctx, feats):
+    def observe_srr(self, laser, cur, shapes, ctx, feats, order="extent-first", how="get"):
         """extent / reconstructed pixel size of the SRR laser AS IT IS NOW against the shape of the reconstruction;
         `cur` = the INPUTS of the configuration it holds now (constructor arguments + "ops") -> (impl, model, spec, raised).
         The demanded shape is Lean's `reconRows/reconCols` (C09's specification of the reconstruction) whenever the model's
-        validity check accepts the configuration; the shape pewlib reconstructs is an observation that must equal it too."""
+        validity check accepts the configuration; the shape pewlib reconstructs is an observation that must equal it too.
+        `order`: the reconstruction is read before or after the extent; `how`: get() | get("A") | get(flat=True)."""
+        def reconstruct():
+            try:
+                recon = laser.get() if how == "get" else (laser.get("A") if how == "element" else laser.get(flat=True))
+                return [int(recon.shape[0]), int(recon.shape[1])], None
+            except Exception as e:  # the property speaks of the reconstructed array; success is C09's claim
+                return None, {"raises": type(e).__name__, "msg": str(e)[:200]}
+
+        first = reconstruct() if order == "get-first" else None
         ext = [float(v) for v in laser.extent]
         px, py = float(laser.config.get_pixel_width()), float(laser.config.get_pixel_height())
         rep = ctx.driver.call("c10.srr", cfg=srr_cfg_json(cur), shapes=shapes, observed=[rat(v) for v in ext + [px, py]])
         mj = rep["config"]
         if not mj["integer_mag"] or mj["mag"] != cur["mag"]:
             raise core.InternalError("generator: the model's float64 magnification is not the intended integer")
-        feats |= {"srr", f"mag{cur['mag']}", f"layers{len(shapes)}", "warmup>0" if rep["warmup"] > 0 else "warmup=0",
+        noffs = len(rep["offs"])
+        if not (1e-60 < cur["spotsize"] < 1e60):
+            feats.add("srr: parameters scaled by 2^k, |k| >= 600")
+        feats |= {"srr", f"mag{cur['mag']}", f"layers{len(shapes)}",
+                  "warmup=0" if rep["warmup"] == 0 else ("warmup>=40 samples" if rep["warmup"] >= 40 else "warmup>0"),
                   "non-square" if shapes[0][0] != shapes[1][0] else "square",
                   "offset>0" if (rep["offs"] and max(rep["offs"]) > 0) else "offset=0",
-                  f"spp{'>1' if rep['spp'] > 1 else '=1'}"}
-        try:
-            recon = laser.get()
-            rshape = [int(recon.shape[0]), int(recon.shape[1])]
-        except Exception as e:  # the property speaks of the reconstructed array; success is C09's claim
-            return {"raises": type(e).__name__, "msg": str(e)[:200]}, None, None, True
+                  f"spp{'>1' if rep['spp'] > 1 else '=1'}",
+                  "srr: more offsets than layers" if noffs > len(shapes) else ("srr: fewer offsets than layers" if noffs < len(shapes) else "srr: as many offsets as layers"),
+                  "srr: reconstruction read " + ("before" if order == "get-first" else "after") + " the extent", "srr: read by " + how}
+        if noffs > len(shapes) and rep["offs"] and max(rep["offs"]) > max(rep["offs"][:len(shapes)]):
+            feats.add("srr: the largest offset belongs to no layer")
+        rshape, err = first if first is not None else reconstruct()
+        if rshape is None:
+            return err, None, None, True
         if rep["observed_ratio"] is None:
             impl = {"cols_from_extent": None, "rows_from_extent": None}
         else:
@@ -774,7 +1396,7 @@ class C10(Prop):
         feats = set()
         if case.get("roundtrip"):
             feats.add("srr-config-after-roundtrip")
-        impl, model, spec, raised = self.observe_srr(laser, case, shapes, ctx, feats)
+        impl, model, spec, raised = self.observe_srr(laser, case, shapes, ctx, feats, case.get("order", "extent-first"), case.get("how", "get"))
         if raised:
             return outcome(impl, None, None, spec_ok=True, model_ok=True, undetermined=True, features=feats)
         return outcome(impl, model, spec, features=feats)
@@ -849,7 +1471,7 @@ class C10(Prop):
             for ob in step["obs"]:
                 nobs += 1
                 if ob["o"] == "extent":
-                    i, m, s, sok, mok = self.observe_extent(laser, cfg, rows, cols, ctx)
+                    i, m, s, sok, mok = self.observe_extent(laser, cfg, rows, cols, ctx, feats)
                     spec_ok, model_ok = spec_ok and sok, model_ok and mok
                 else:
                     if ob["o"] == "own":
@@ -857,9 +1479,9 @@ class C10(Prop):
                     else:  # a rectangle drawn for another shape (shrunk history) is clipped to the image
                         r0, r1, c0, c1 = ob["rect"]
                         rect, modes = [min(r0, rows), min(r1, rows), min(c0, cols), min(c1, cols)], ob["modes"]
-                    i, m, s, u, h = self.observe_get(laser, fields, element, cfg, rows, cols, rect, modes, full, ctx, feats)
+                    i, m, s, u, h, mok = self.observe_get(laser, fields, element, cfg, rows, cols, rect, modes, full, ctx, feats)
                     undet, hyp = undet or u, hyp and h
-                    spec_ok, model_ok = spec_ok and canon_eq(i, s), model_ok and canon_eq(i, m)
+                    spec_ok, model_ok = spec_ok and canon_eq(i, s), model_ok and mok
                     feats.add("structured-read" if element is None else "element-read")
                 impl.append(i)
                 model.append(m)
@@ -877,20 +1499,281 @@ class C10(Prop):
             feats.add(cfg["kind"])
         return outcome(impl, model, spec, spec_ok=spec_ok, model_ok=model_ok, undetermined=undet, hyp=hyp, features=feats)
 
+    # ------------------------------------------------------------------ histories on configuration objects and lasers
+    HEAP_ATTRS = {"raster": ("spotsize", "speed", "scantime"), "spot": ("spotsize", "spotsize_y", "speed", "scantime")}
+
+    def eval_heap(self, case, ctx):
+        """a history on several configuration objects and several Laser objects that may SHARE one configuration object.
+        The harness keeps no configuration state of its own: it tells the driver what it DID (objects made, copied by
+        pewlib, assigned, attributes set, data assigned; identities as observed with `is`) and at every observation the
+        Lean specification (`viewSpec`, the history read backwards) says which configuration and shape the laser must show."""
+        import gc
+
+        from pewlib.laser import Laser
+
+        objs = []  # object number -> the Python object while the harness holds it, else None (dropped, or made by pewlib)
+        mine = []  # i-th configuration the harness made itself -> its object number (steps refer to configurations by i)
+        kinds = []  # object number -> "raster" | "spot"
+        lasers = []  # laser number -> dict(laser, held, fields, rows, cols, nextk, dtypes, layout)
+        dops = []  # what was done, for the driver
+        impl, model, spec = [], [], []
+        spec_ok = model_ok = hyp = True
+        undet = False
+        feats = {"heap-history"}
+        nobs = 0
+        edited_since = {}  # laser number -> tags of what changed since its extent was last read
+
+        def resolve(k):
+            """the Python object number k, or None when nobody holds it any more"""
+            if not (isinstance(k, int) and 0 <= k < len(objs)):
+                return None
+            if objs[k] is not None:
+                return objs[k]
+            for L in lasers:
+                if L["held"] == k:
+                    return L["laser"].config
+            return None
+
+        def note(tag, holders):
+            feats.add(tag)
+            for j in holders:
+                edited_since.setdefault(j, set()).add(tag)
+
+        def adopt(j_laser, k):
+            """after `Laser(.., config=objs[k])` or `laser.config = objs[k]`: which object does the laser hold?"""
+            held = j_laser.config
+            if held is objs[k]:
+                return k
+            dops.append({"op": "copyCfg", "src": k})  # pewlib made its own object (copy.copy in Laser.__init__)
+            objs.append(None)
+            kinds.append(kinds[k])
+            return len(objs) - 1
+
+        for st in case["steps"]:
+            op = st["s"]
+            if op == "cfg":
+                objs.append(make_cfg(st["cfg"], st.get("types")))
+                mine.append(len(objs) - 1)
+                kinds.append(st["cfg"]["kind"])
+                dops.append({"op": "newCfg", "cfg": cfg_json(st["cfg"])})
+                for k, t in sorted((st.get("types") or {}).items()):
+                    if k in st["cfg"] and isinstance(t, str):
+                        feats.add("parameter type: " + type_used(st["cfg"][k], t))
+                if (st.get("types") or {}).get("_positional"):
+                    feats.add("configuration made with positional arguments")
+            elif op == "laser":
+                k = mine[st["cfg"]] if 0 <= st["cfg"] < len(mine) else -1
+                if not (0 <= k < len(objs)) or objs[k] is None:
+                    continue
+                nel = st.get("nel", 1)
+                fields = [("A", 0), ("B", 1)][:nel]
+                rows, cols = st["rows"], st["cols"]
+                L = {"fields": fields, "rows": rows, "cols": cols, "nextk": nel, "dtypes": st.get("dtypes"), "layout": st.get("layout", "C")}
+                L["laser"] = Laser(token_data(rows, cols, fields, L["dtypes"], L["layout"]), config=objs[k])
+                L["held"] = adopt(L["laser"], k)
+                feats.add("constructor copied the configuration" if L["held"] != k else "constructor kept the configuration object")
+                dops.append({"op": "newLaser", "cfg": L["held"], "rows": rows, "cols": cols})
+                lasers.append(L)
+            elif op in ("assign", "assignl"):  # laser.config = <a configuration of the harness> | <the one another laser holds>
+                j = st["laser"]
+                if not (0 <= j < len(lasers)):
+                    continue
+                if op == "assign":
+                    k = mine[st["cfg"]] if 0 <= st["cfg"] < len(mine) else -1
+                    obj = objs[k] if 0 <= k < len(objs) else None
+                else:
+                    if not (0 <= st["from"] < len(lasers)):
+                        continue
+                    k = lasers[st["from"]]["held"]
+                    obj = lasers[st["from"]]["laser"].config
+                if obj is None:
+                    continue
+                L = lasers[j]
+                L["laser"].config = obj
+                if L["laser"].config is obj:
+                    L["held"] = k
+                else:  # an assignment that copies
+                    dops.append({"op": "copyCfg", "src": k})
+                    objs.append(None)
+                    kinds.append(kinds[k])
+                    L["held"] = len(objs) - 1
+                dops.append({"op": "setCfg", "laser": j, "cfg": L["held"]})
+                note("config assigned", [j])
+                if sum(1 for M in lasers if M["held"] == L["held"]) > 1:
+                    feats.add("one configuration object shared by two lasers")
+            elif op == "copy":  # copy.copy(laser) shares configuration object and data; copy.deepcopy(laser) shares nothing
+                import copy as _copy
+
+                j = st["laser"]
+                if not (0 <= j < len(lasers)):
+                    continue
+                L0 = lasers[j]
+                twin = (_copy.deepcopy if st.get("deep") else _copy.copy)(L0["laser"])
+                if not st.get("deep"):  # a shallow copy also shares the dict of calibrations: give the twin its own, so that
+                    twin.calibration = dict(twin.calibration)  # removing an element from one laser does not break the other
+                L = {**L0, "laser": twin, "fields": list(L0["fields"])}
+                if twin.config is L0["laser"].config:
+                    feats.add("copy.copy of a laser: the configuration object is shared")
+                else:
+                    dops.append({"op": "copyCfg", "src": L0["held"]})
+                    objs.append(None)
+                    kinds.append(kinds[L0["held"]])
+                    L["held"] = len(objs) - 1
+                    feats.add("copy of a laser with its own configuration object")
+                dops.append({"op": "newLaser", "cfg": L["held"], "rows": L["rows"], "cols": L["cols"]})
+                lasers.append(L)
+            elif op in ("set", "setl"):
+                if op == "set":
+                    k = mine[st["cfg"]] if 0 <= st["cfg"] < len(mine) else -1
+                else:
+                    if not (0 <= st["laser"] < len(lasers)):
+                        continue
+                    k = lasers[st["laser"]]["held"]
+                obj = resolve(k)
+                if obj is None or st["attr"] not in self.HEAP_ATTRS[kinds[k]]:
+                    continue
+                setattr(obj, st["attr"], typed(st["value"], st.get("type")))
+                dops.append({"op": "setAttr", "cfg": k, "attr": st["attr"], "value": rat(st["value"])})
+                holders = [j for j, M in enumerate(lasers) if M["held"] == k]
+                note("in-place edit of " + st["attr"] + (" (spot: not a pixel size)" if kinds[k] == "spot" and st["attr"] in ("speed", "scantime") else ""), holders)
+                if st.get("type") not in (None, "float"):
+                    feats.add("parameter type: " + type_used(st["value"], st["type"]))
+                if op == "set" and holders:
+                    feats.add("edit through the harness's own reference to the object")
+                if len(holders) > 1:
+                    feats.add("edit seen by two lasers")
+            elif op == "data":
+                j = st["laser"]
+                if not (0 <= j < len(lasers)):
+                    continue
+                L = lasers[j]
+                same = (st["rows"], st["cols"]) == (L["rows"], L["cols"])
+                L["rows"], L["cols"] = st["rows"], st["cols"]
+                L["dtypes"], L["layout"] = st.get("dtypes", L["dtypes"]), st.get("layout", L["layout"])
+                L["laser"].data = token_data(L["rows"], L["cols"], L["fields"], L["dtypes"], L["layout"])
+                dops.append({"op": "setData", "laser": j, "rows": L["rows"], "cols": L["cols"]})
+                note("data assigned: same shape" if same else "data assigned: other shape", [j])
+            elif op == "add":
+                j = st["laser"]
+                if not (0 <= j < len(lasers)) or len(lasers[j]["fields"]) >= 4:
+                    continue
+                L = lasers[j]
+                name = f"E{L['nextk']}"
+                L["laser"].add(name, token_data(L["rows"], L["cols"], [(name, L["nextk"])])[name])
+                L["fields"] = L["fields"] + [(name, L["nextk"])]
+                L["nextk"] += 1
+                note("element added", [j])
+            elif op == "remove":
+                j = st["laser"]
+                if not (0 <= j < len(lasers)) or len(lasers[j]["fields"]) < 2:
+                    continue
+                L = lasers[j]
+                gone = L["fields"][st.get("index", 0) % len(L["fields"])]
+                L["laser"].remove(gone[0])
+                L["fields"] = [f for f in L["fields"] if f != gone]
+                note("element removed", [j])
+            elif op == "drop":  # the harness forgets its reference: an object nobody holds is freed and its id() may be reused
+                k = mine[st["cfg"]] if 0 <= st["cfg"] < len(mine) else -1
+                if 0 <= k < len(objs) and objs[k] is not None:
+                    objs[k] = None
+                    gc.collect()
+                    feats.add("configuration object dropped (its id may be reused)")
+            elif op == "obs":
+                j = st["laser"]
+                if not (0 <= j < len(lasers)):
+                    continue
+                L = lasers[j]
+                rep = ctx.driver.call("c10.heap", ops=dops + [{"op": "obs", "laser": j}])["obs"][-1]
+                if rep["spec"] is None or rep["model"] is None:
+                    raise core.InternalError("the history names a laser or configuration the driver does not know")
+                view_m, view_s = rep["model"], rep["spec"]
+                cfg = {k: (v if k == "kind" else float(unrat(v))) for k, v in view_s["cfg"].items()}
+                rows, cols = view_s["rows"], view_s["cols"]
+                if (rows, cols) != (L["rows"], L["cols"]):
+                    raise core.InternalError("the driver's shape is not the shape of the data the harness assigned")
+                laser, fields = L["laser"], L["fields"]
+                element = None if st.get("element") is None else st["element"] % len(fields)
+                full = rows * cols <= 64
+                nobs += 1
+                if st["o"] == "extent":
+                    i, m, s_, sok, mok = self.observe_extent(laser, cfg, rows, cols, ctx, feats)
+                    spec_ok, model_ok = spec_ok and sok, model_ok and mok
+                elif st["o"] == "px":  # the pixel sizes alone, through the object the laser holds
+                    conf = laser.config
+                    i = {"pw": float(conf.get_pixel_width()), "ph": float(conf.get_pixel_height()),
+                         "data_extent": [float(v) for v in conf.data_extent((rows, cols))]}
+                    r2 = ctx.driver.call("c10.extent", cfg=cfg_json(cfg), rows=rows, cols=cols, arrays=[])
+                    m = {k: r2["model"][k] for k in ("pw", "ph", "data_extent")}
+                    s_ = {"pw": r2["spec"]["pw"], "ph": r2["spec"]["ph"], "data_extent": r2["spec"]["extent"]}
+                    for ref, which in ((m, "m"), (s_, "s")):
+                        ok = fclose(i["pw"], unrat(ref["pw"])) and fclose(i["ph"], unrat(ref["ph"])) and ext_close(i["data_extent"], ref["data_extent"])
+                        if which == "m":
+                            model_ok = model_ok and ok
+                        else:
+                            spec_ok = spec_ok and ok
+                    feats.add("pixel sizes read alone")
+                else:
+                    if st["o"] == "own":
+                        rect, modes = [0, rows, 0, cols], ["own"] * 4
+                    else:  # a rectangle drawn for another shape (shrunk history) is clipped to the image
+                        r0, r1, c0, c1 = st["rect"]
+                        rect, modes = [min(r0, rows), min(r1, rows), min(c0, cols), min(c1, cols)], st["modes"]
+                    i, m, s_, u, h, mok = self.observe_get(laser, fields, element, cfg, rows, cols, rect, modes, full, ctx, feats, st.get("opts"))
+                    undet, hyp = undet or u, hyp and h
+                    spec_ok, model_ok = spec_ok and canon_eq(i, s_), model_ok and mok
+                    feats.add("structured-read" if element is None else "element-read")
+                impl.append({"view": view_s, "obs": i})  # (the view is the driver's: the harness has none of its own)
+                model.append({"view": view_m, "obs": m})
+                spec.append({"view": view_s, "obs": s_})
+                model_ok = model_ok and canon_eq(view_m, view_s)
+                feats.add(cfg["kind"])
+                for tg in edited_since.pop(j, set()):
+                    feats.add(("extent read after: " if st["o"] in ("extent", "own") else "read after: ") + tg)
+            else:
+                raise core.InternalError(f"unknown history step {st}")
+        if nobs == 0:
+            feats = set()
+        return outcome(impl, model, spec, spec_ok=spec_ok, model_ok=model_ok, undetermined=undet, hyp=hyp, features=feats)
+
     def eval_srr_hist(self, case, ctx):
-        """a history on ONE SRRLaser object: configuration edited in place (offsets, warm-up, spot size/speed/scan time)
-        or replaced; after each change extent / pixel size is compared with the shape reconstructed then"""
+        """a history on ONE SRRLaser object (and, with "second", another SRRLaser that is given the SAME configuration
+        object): configuration edited in place (offsets, warm-up, spot size / speed / scan time, one by one in any order),
+        replaced, layers replaced; after each change extent / pixel size is compared with the shape reconstructed then.
+        The driver is told the constructor arguments and the sequence of setter calls of the configuration OBJECT the
+        observed laser holds; Lean's setters compute its state."""
         from pewlib.srr.srr import SRRLaser
 
-        shapes = stack_shapes(case)
-        cur = {k: case[k] for k in ("spotsize", "speed", "scantime", "warmup", "pairs", "mag")}
-        cur["ops"] = []  # what is DONE to the configuration object after its construction, for the driver's setters
-        laser = SRRLaser(self.srr_layers(shapes), config=make_srr_cfg(cur))
-        impl, model, spec = [], [], []
+        def layers_of(shapes, n):
+            return [shapes[i % 2] for i in range(n)]
+
+        cur0 = {k: case[k] for k in ("spotsize", "speed", "scantime", "warmup", "pairs", "mag")}
+        cur0["ops"] = []  # what is DONE to the configuration object after its construction, for the driver's setters
+        cur0["ctor"] = {k: case[k] for k in ("spotsize", "speed", "scantime", "warmup", "pairs")}
+        states = [cur0]  # one entry per configuration object
+        shapes = [stack_shapes(case)]
+        lasers = [SRRLaser(self.srr_layers(shapes[0]), config=make_srr_cfg(cur0))]
+        held = [0]  # laser -> index into `states`
         feats = {"srr-history"}
+        if case.get("second"):
+            sh2 = layers_of(case["second"]["shapes"], case["second"]["n"])
+            other = SRRLaser(self.srr_layers(sh2))
+            other.config = lasers[0].config
+            lasers.append(other)
+            shapes.append(sh2)
+            if other.config is lasers[0].config:
+                held.append(0)
+                feats.add("srr-history: one configuration object shared by two lasers")
+            else:  # an assignment that copies: the second laser keeps the state of that moment
+                states.append({**cur0, "ops": [], "ctor": dict(cur0["ctor"])})
+                held.append(1)
+        impl, model, spec = [], [], []
         ok = 0
         for idx, step in enumerate(case["steps"]):
             ch = step.get("change")
+            on = step.get("on", 0) % len(lasers)
+            # changes go through the main laser (number 0); the observation is made on laser `on`
+            laser = lasers[0]
+            cur = states[held[0]]
             if ch is None:
                 tag = None
             elif ch["op"] == "set":
@@ -918,21 +1801,69 @@ class C10(Prop):
                 tag = "in-place edit of spot size, speed, scan time"
                 if ch["mag"] != cur["mag"]:
                     feats.add("srr-history: magnification changed")
+            elif ch["op"] == "attrs":  # one attribute after the other, in the order given
+                conf = laser.config
+                names = []
+                for name, v in ch["seq"]:
+                    if name in ("spotsize", "speed", "scantime"):
+                        setattr(conf, name, v)
+                        cur[name] = v
+                        cur["ops"].append(cfg_op("params", spotsize=cur["spotsize"], speed=cur["speed"], scantime=cur["scantime"]))
+                    elif name == "warmup":
+                        conf.warmup = v
+                        cur["warmup"] = v
+                        cur["ops"].append(cfg_op("warmup", seconds=v))
+                    elif name == "pairs":
+                        conf.subpixel_offsets = [tuple(p) for p in v]
+                        cur["pairs"] = v
+                        cur["ops"].append(cfg_op("offsets", pairs=v))
+                    else:
+                        raise core.InternalError(f"unknown attribute {name}")
+                    names.append(name)
+                tag = "attributes one by one"
+                feats.add("srr-history: first of the attributes edited: " + names[0])
+                if ch["mag"] != cur["mag"]:
+                    feats.add("srr-history: magnification changed")
+                if not any(n == "warmup" for n in names) and any(n == "scantime" for n in names):
+                    feats.add("srr-history: scan time edited, warm-up (in samples) kept")
+            elif ch["op"] == "layers":
+                j = ch.get("on", 0) % len(lasers)
+                new_shapes = layers_of(ch["shapes"], ch["n"])
+                arrs = self.srr_layers(new_shapes)
+                if ch.get("how") == "in-place" and len(arrs) == len(lasers[j].data):
+                    for i_, a_ in enumerate(arrs):
+                        lasers[j].data[i_] = a_
+                    tag = "layers replaced inside the list"
+                else:
+                    lasers[j].data = arrs
+                    tag = "list of layers assigned"
+                if [sh[0] for sh in new_shapes[:2]] == [sh[0] for sh in shapes[j][:2]] and len(new_shapes) == len(shapes[j]):
+                    feats.add("srr-history: layers replaced, same numbers of lines")
+                shapes[j] = new_shapes
             elif ch["op"] == "replace":
-                new = {**cur, **{k: v for k, v in ch.items() if k != "op"}}
+                new = {**cur, **{k: v for k, v in ch.items() if k != "op"}, "ops": []}
+                new["ctor"] = {k: new[k] for k in ("spotsize", "speed", "scantime", "warmup", "pairs")}
                 laser.config = make_srr_cfg(new)
-                cur["ops"].append(cfg_op("new", spotsize=new["spotsize"], speed=new["speed"], scantime=new["scantime"],
-                                         warmup=new["warmup"], pairs=new["pairs"]))
+                states.append(new)
+                held[0] = len(states) - 1
+                cur = new
                 tag = "config replaced"
+                if len(lasers) > 1 and held[1] != held[0]:
+                    feats.add("srr-history: config replaced on one of two lasers that shared it")
             else:
                 raise core.InternalError(f"unknown change {ch}")
-            if ch is not None:
+            if ch is not None and ch["op"] not in ("attrs", "layers", "replace"):
                 cur.update({k: v for k, v in ch.items() if k != "op"})
+            elif ch is not None and ch["op"] == "attrs":
+                cur["mag"] = ch["mag"]
             if tag is not None and idx > 0:
                 feats.add("srr-history: " + tag)
-            if len(cur["pairs"]) > len(shapes):
+            seen = states[held[on]]
+            if len(seen["pairs"]) > len(shapes[on]):
                 feats.add("srr-history: more offsets than layers")
-            i, m, s, raised = self.observe_srr(laser, cur, shapes, ctx, feats)
+            if on != 0:
+                feats.add("srr-history: observed on the second laser")
+            i, m, s, raised = self.observe_srr(lasers[on], seen, shapes[on], ctx, feats, step.get("order", "extent-first"), step.get("how", "get"))
             if raised:  # nothing reconstructed at this step: nothing the property relates the extent to
                 i = m = s = {"no reconstruction": i}
                 feats.add("srr-history: a step without reconstruction")
@@ -944,6 +1875,13 @@ class C10(Prop):
         return outcome(impl, model, spec, undetermined=(ok == 0), features=feats)
 
     def evaluate(self, case, ctx):
+        import warnings
+
+        with warnings.catch_warnings(), np.errstate(all="ignore"):
+            warnings.simplefilter("ignore")
+            return self.evaluate_(case, ctx)
+
+    def evaluate_(self, case, ctx):
         k = case["kind"]
         if k == "extent":
             return self.eval_extent(case, ctx)
@@ -963,6 +1901,8 @@ class C10(Prop):
             return self.eval_hist(case, ctx)
         if k == "srr_hist":
             return self.eval_srr_hist(case, ctx)
+        if k == "heap":
+            return self.eval_heap(case, ctx)
         raise core.InternalError(f"unknown case kind {k}")
 
     def shrink(self, case):
@@ -987,6 +1927,9 @@ class C10(Prop):
                                 yield {**case, "kind": "get", "rect": [r0, r1, c0, c1], "modes": [case["mode"]] * 4}
             if case.get("nel", 1) > 1:
                 yield {**case, "nel": 1, "element": 0}
+            for extra in ("types", "opts", "dtypes", "layout"):
+                if extra in case:
+                    yield {k_: v for k_, v in case.items() if k_ != extra}
         elif k == "hist":
             steps = case["steps"]
             for i in range(len(steps)):  # fewer steps (the state is followed by evaluate, so any sub-history is a valid case)
@@ -1014,10 +1957,24 @@ class C10(Prop):
                     yield {**case, "rows": nr, "cols": nc}
             if case["nel"] > 1:
                 yield {**case, "nel": 1}
+        elif k == "heap":  # any sub-sequence is a valid history: steps that name something that does not exist are skipped
+            steps = case["steps"]
+            for i in range(len(steps)):
+                if steps[i]["s"] not in ("cfg", "laser"):
+                    yield {**case, "steps": steps[:i] + steps[i + 1:]}
+            for i, st in enumerate(steps):
+                if st["s"] in ("laser", "data"):
+                    for nr, nc in ((st["rows"] // 2, st["cols"]), (st["rows"], st["cols"] // 2)):
+                        if nr >= 1 and nc >= 1:
+                            yield {**case, "steps": steps[:i] + [{**st, "rows": nr, "cols": nc}] + steps[i + 1:]}
+                if st.get("type") or st.get("types") or st.get("dtypes") or st.get("layout"):
+                    yield {**case, "steps": steps[:i] + [{k_: v for k_, v in st.items() if k_ not in ("type", "types", "dtypes", "layout")}] + steps[i + 1:]}
         elif k == "srr_hist":
             steps = case["steps"]
             for i in range(len(steps)):
                 yield {**case, "steps": steps[:i] + steps[i + 1:]}
+            if case.get("second"):
+                yield {k_: v for k_, v in case.items() if k_ != "second"}
             if case["n"] > 2:
                 yield {**case, "n": case["n"] - 1}
         elif k == "srr":
